@@ -60,16 +60,7 @@ impl State {
 
         // TODO streamline application logic for multiline strings
         self.cur_indent = self.line_indent;
-        self.pos = self.pos.offset_pos(token.clone().width());
-        if let Token::Str(_str, _) = &token {
-            self.pos = self
-                .pos
-                .offset_line((_str.lines().count() as i32 - 1) as usize);
-        } else if let Token::DocStr(_str) = &token {
-            self.pos = self
-                .pos
-                .offset_line((_str.lines().count() as i32 - 1) as usize);
-        }
+        self.pos = token.end(self.pos);
 
         res
     }
